@@ -1,6 +1,7 @@
 package world
 
 import (
+	"fmt"
 	"sync"
 
 	"github.com/go-kid/ioc/component_definition"
@@ -20,6 +21,9 @@ type SubPlan struct {
 	// SameType: the substitute is a fresh instance of the component's own concrete type (a decorated
 	// copy), so it can also stand in for *T fields; otherwise it is a *Wrap.
 	SameType bool `json:"same_type,omitempty"`
+	// NamedCopy (with SameType): the decorated copy of an UNNAMED component gives itself a name of its own
+	// (a configured copy); the component stays registered under the name it was registered with.
+	NamedCopy bool `json:"named_copy,omitempty"`
 	// ZeroSize: the substitutes are zero-size objects of two different types (*ZWrap1 for odd versions,
 	// *ZWrap2 for even ones); at most one component per scenario may use this mode.
 	ZeroSize bool `json:"zero_size,omitempty"`
@@ -80,6 +84,9 @@ func (s *Substituter) wrap(c any, name string, reuse bool) any {
 			*cp.Core() = *n.Core()
 			cp.Core().Log = nil // the copy's callbacks are not part of the scenario's event log
 			cp.Core().Fails, cp.Core().FailOnce, cp.Core().Hook = nil, nil, nil
+			if p.NamedCopy && cp.Core().Name == "" {
+				cp.Core().Name = fmt.Sprintf("configured-copy-%d-of-%s", w.Version, Palette[n.TypeIdx()].TypeName)
+			}
 			w.Copy = cp
 			if s.Run != nil {
 				s.Run.SubInfo[cp] = w
